@@ -106,44 +106,64 @@ class _Handler:
         return self.status
 
 
-def hook_eval(run, model, so, inner):
-    """SPY.hook-marker by evaluation: the spy wrapper is run on a scratch chart for every status a handler can answer with and for an inner and an outer signal: the
-    step log must read [offer] plus [offer:HOOK] exactly when the status is HANDLED and the signal is not an inner one; the handler runs exactly once"""
+def wrapper_cases(model, so, inner):
+    """the spy wrapper run on a scratch chart for every status a handler can answer with and for an outer and an inner signal: yields
+    (status name, signal name, step log, tuples written to rtc.tuples, handler calls, returned value, handler).  AnalysisError when the wrapper is outside the evaluator's fragment"""
     from sa import pureeval
     statuses = ('HANDLED', 'SUPER', 'UNHANDLED', 'IGNORED', 'TRAN', 'ENTRY', 'EXIT', 'INIT', 'Q_RET_NULL')
     rs = pureeval.Obj(**{s_: pureeval.Obj(__name__=s_) for s_ in statuses})
-    inner_names = {'ENTRY_SIGNAL', 'EXIT_SIGNAL', 'INIT_SIGNAL'}
+    inner_names = INNER_NAMES
     sig = pureeval.Obj(is_inner_signal=lambda nm: nm in inner_names, REFLECTION_SIGNAL=4, ENTRY_SIGNAL=1, EXIT_SIGNAL=2, INIT_SIGNAL=3)
-    tuples = []
+    # defaults of the package's spy_tuple(...) helper, so that a field the wrapper leaves out reads as the package reads it
+    defaults = {}
+    stf = None
+    try:
+        stf = model.func('hsm.spy_tuple')
+    except Exception:
+        stf = None
+    if stf is not None:
+        a_ = stf.node.args
+        for nm_, dv_ in zip([x.arg for x in a_.args][len(a_.args) - len(a_.defaults):], a_.defaults):
+            if isinstance(dv_, ast.Constant):
+                defaults[nm_] = dv_.value
 
     def spy_tuple(**kw):
-        o = pureeval.Obj(**kw)
-        tuples.append(o)
-        return o
+        d = dict(defaults)
+        d.update(kw)
+        return pureeval.Obj(**d)
+    for st_name in ('HANDLED', 'SUPER', 'UNHANDLED', 'IGNORED', 'TRAN'):
+        for sname, snum in (('USER_SIGNAL', 50), ('ENTRY_SIGNAL', 1)):
+            h = _Handler('state_a', getattr(rs, st_name))
+            chart = pureeval.Obj(instrumented=True, rtc=pureeval.Obj(spy=[], tuples=[]), spied_on=False, state_name=None, state_fn=None, name='c')
+            ev_ = pureeval.Obj(signal_name=sname, signal=snum, payload=None)
+            g_ = dict(pureeval.module_constants(model, so.module))
+            g_.update({so.params[0]: h, 'signals': sig, 'return_status': rs, 'spy_tuple': spy_tuple, 'SpyTuple': spy_tuple,
+                       'inspect': pureeval.Obj(ismethod=lambda f_: False), 'stdlib_datetime': pureeval.Obj(now=lambda: 0)})
+            for f_ in model.all_funcs():
+                if f_.module is so.module and f_.cls is None and f_.parent is None and f_.name not in g_:
+                    g_[f_.name] = pureeval.Closure(f_.node, g_)
+            try:
+                got = pureeval.call(inner.node, [chart, ev_], globals_=g_, mutable=True, strict_locals=True)
+            except pureeval.Raised as ex:
+                got = 'raises ' + ex.what
+            yield st_name, sname, list(chart.rtc.spy), list(chart.rtc.tuples), h.calls, got, h
+
+
+INNER_NAMES = {'ENTRY_SIGNAL', 'EXIT_SIGNAL', 'INIT_SIGNAL'}
+
+
+def hook_eval(run, model, so, inner):
+    """SPY.hook-marker by evaluation: the spy wrapper is run on a scratch chart for every status a handler can answer with and for an inner and an outer signal: the
+    step log must read [offer] plus [offer:HOOK] exactly when the status is HANDLED and the signal is not an inner one; the handler runs exactly once"""
     bad = None
     n = 0
     try:
-        for st_name in ('HANDLED', 'SUPER', 'UNHANDLED', 'IGNORED', 'TRAN'):
-            for sname, snum in (('USER_SIGNAL', 50), ('ENTRY_SIGNAL', 1)):
-                h = _Handler('state_a', getattr(rs, st_name))
-                chart = pureeval.Obj(instrumented=True, rtc=pureeval.Obj(spy=[], tuples=[]), spied_on=False, state_name=None, state_fn=None, name='c')
-                ev_ = pureeval.Obj(signal_name=sname, signal=snum, payload=None)
-                g_ = dict(pureeval.module_constants(model, so.module))
-                g_.update({so.params[0]: h, 'signals': sig, 'return_status': rs, 'spy_tuple': spy_tuple, 'SpyTuple': spy_tuple,
-                           'inspect': pureeval.Obj(ismethod=lambda f_: False), 'stdlib_datetime': pureeval.Obj(now=lambda: 0)})
-                for f_ in model.all_funcs():
-                    if f_.module is so.module and f_.cls is None and f_.parent is None and f_.name not in g_:
-                        g_[f_.name] = pureeval.Closure(f_.node, g_)
-                try:
-                    got = pureeval.call(inner.node, [chart, ev_], globals_=g_, mutable=True, strict_locals=True)
-                except pureeval.Raised as ex:
-                    got = 'raises ' + ex.what
-                n += 1
-                offer = '%s:%s' % (sname, 'state_a')
-                want = [offer] + ([offer + ':HOOK'] if st_name == 'HANDLED' and sname not in inner_names else [])
-                log = list(chart.rtc.spy)
-                if (log != want or h.calls != 1 or got is not h.status) and bad is None:
-                    bad = (st_name, sname, log, want, h.calls, got)
+        for st_name, sname, log, _tuples, calls, got, h in wrapper_cases(model, so, inner):
+            n += 1
+            offer = '%s:%s' % (sname, 'state_a')
+            want = [offer] + ([offer + ':HOOK'] if st_name == 'HANDLED' and sname not in INNER_NAMES else [])
+            if (log != want or calls != 1 or got is not h.status) and bad is None:
+                bad = (st_name, sname, log, want, calls, got)
     except AnalysisError as ex:
         run.note('the spy wrapper is outside the evaluator\'s fragment (%s): its HOOK line is decided structurally' % ex)
         return False
